@@ -43,6 +43,8 @@ def width(t):
         return 128, False
     if 'm256' in t:
         return 256, False
+    if '128' in t and 'int' in t:
+        return 128, not ('uint' in t or 'unsigned' in t)
     signed = not (t.startswith('u') or 'unsigned' in t or t in ('size_t',))
     if '64' in t or 'long' in t or t in ('size_t', 'ssize_t', 'ptrdiff_t'):
         return 64, signed
@@ -194,6 +196,57 @@ def member_path(e):
     return '.'.join(reversed(names))
 
 
+def _f2b(x):
+    import struct as _st
+    return _st.unpack('<Q', _st.pack('<d', float(x)))[0]
+
+
+def _b2f(b):
+    import struct as _st
+    return _st.unpack('<d', _st.pack('<Q', b & ((1 << 64) - 1)))[0]
+
+
+def _is_fp_type(t):
+    t = (t or '').replace('const ', '')
+    return t.strip().rstrip('&* ').strip() in ('double', 'float', 'long double')
+
+
+class UnionVal:
+    """a local union of 8-byte scalars (double / uint64_t punning): one bit pattern read through the accessed type"""
+    def __init__(self):
+        self.bits = 0
+
+    def read(self, t):
+        if _is_fp_type(t):
+            return _b2f(self.bits)
+        w, sg = width(t)
+        v = self.bits & ((1 << w) - 1)
+        if sg and v >> (w - 1):
+            v -= 1 << w
+        return v
+
+    def write(self, t, v):
+        self.bits = _f2b(v) if isinstance(v, float) else (v & ((1 << 64) - 1))
+
+    def cast_to(self, t):
+        return self
+
+
+class MemberCell:
+    """the address of a member of a local union"""
+    def __init__(self, u, t):
+        self.u, self.t = u, t
+
+    def deref(self):
+        return self.u.read(self.t)
+
+    def set(self, v, as_t=None):
+        self.u.write(as_t or self.t, v)
+
+    def cast_to(self, t):
+        return self
+
+
 class LocalCell:
     """the address of a (pointer-typed) local variable: reads and writes go to the owning frame"""
     def __init__(self, env, vid, t):
@@ -204,7 +257,11 @@ class LocalCell:
             raise UndefinedBehaviour('read of an uninitialised local through its address')
         return self.env[self.vid]
 
-    def set(self, v):
+    def set(self, v, as_t=None):
+        if _is_fp_type(self.t) and isinstance(v, int):
+            v = _b2f(v)              # an integer bit pattern stored through a cast pointer into a double
+        elif not _is_fp_type(self.t) and isinstance(v, float):
+            v = _f2b(v)
         self.env[self.vid] = v
 
     def cast_to(self, t):
@@ -322,6 +379,8 @@ class Interp:
                         bv = self.ev(e['base'], env, members)
                     except Unsupported:
                         bv = None
+                    if isinstance(bv, UnionVal):
+                        return bv.read(e.get('t'))
                     if isinstance(bv, dict) and e.get('name') in bv:
                         return bv[e['name']]
                     if hasattr(bv, 'get_member') and e.get('name'):
@@ -355,6 +414,17 @@ class Interp:
                         pb = None
                     if pb is not None and not isinstance(pb, int) and hasattr(pb, 'deref'):
                         return pb + self.ev(inner0['idx'], env, members)      # &p[i] == p + i for a model pointer
+            if op == '&':
+                in0 = strip(e['e'])
+                if in0 is not None and in0.get('k') == 'ref' and in0.get('dk') in ('local', 'param') and _is_fp_type(in0.get('t')):
+                    return LocalCell(env, in0['id'], in0.get('t'))
+                if in0 is not None and in0.get('k') == 'member':
+                    try:
+                        bu_ = self.ev(in0['base'], env, members)
+                    except Unsupported:
+                        bu_ = None
+                    if isinstance(bu_, UnionVal):
+                        return MemberCell(bu_, in0.get('t'))
             if op == '&' and self.memory is not None:
                 in0 = strip(e['e'])
                 if in0 is not None and in0.get('k') == 'ref' and in0.get('dk') in ('local', 'param') and (in0.get('t') or '').rstrip().rstrip('&').rstrip().endswith('*') \
@@ -374,6 +444,13 @@ class Interp:
             v = self.ev(e['e'], env, members)
             if op == '&' and not isinstance(v, int):
                 return v                    # the address of a model object is the object
+            if op == '*' and isinstance(v, (LocalCell, MemberCell)):
+                r_ = v.deref()
+                if isinstance(r_, float) and not _is_fp_type(e.get('t')):
+                    return wrap(_f2b(r_), e.get('t'))
+                if isinstance(r_, int) and _is_fp_type(e.get('t')):
+                    return _b2f(r_)
+                return r_
             if op == '*' and not isinstance(v, int):
                 return v.deref() if hasattr(v, 'deref') else v
             if op == '*' and isinstance(v, int) and self.memory is not None:
@@ -446,7 +523,17 @@ class Interp:
             raise Unsupported('constructor %s with %d arguments' % (e.get('cname'), len(args)))
         if k == 'call':
             name = e.get('cname')
-            args = [self.ev(a, env, members) for a in (e.get('args') or [])]
+            args = []
+            for a in (e.get('args') or []):
+                try:
+                    args.append(self.ev(a, env, members))
+                except Unsupported:
+                    a0_ = strip(a)
+                    if a0_ is not None and a0_.get('k') == 'ref' and a0_.get('dk') == 'local' and a0_.get('id') not in env:
+                        # an uninitialised local handed over by reference (out-parameter): the callee writes it first
+                        args.append(0.0 if _is_fp_type(a0_.get('t')) else 0)
+                    else:
+                        raise
             if self.call_hook is not None:
                 r = self.call_hook(e, args, env, members)
                 if r is not None:
@@ -525,6 +612,10 @@ class Interp:
                         el = arr_[ix]
                         if isinstance(el, (str, int)):
                             return int(el)
+                        if isinstance(el, dict) and 'arr' in el:
+                            return [int(x_) if isinstance(x_, (str, int)) else x_ for x_ in el['arr']]
+                        if isinstance(el, list):
+                            return [int(x_) if isinstance(x_, (str, int)) else x_ for x_ in el]
                         if isinstance(el, dict) and 'bits' in el and len(el['bits']) == 16:
                             import struct as _st
                             return _st.unpack('<d', _st.pack('<Q', int(el['bits'], 16)))[0]
@@ -534,6 +625,11 @@ class Interp:
                 bv0 = self.ev(e['base'], env, members)
             except Unsupported:
                 bv0 = None
+            if isinstance(bv0, (tuple, list)) and not (bv0 and isinstance(bv0[0], str)):
+                ix_ = self.ev(e.get('idx'), env, members)
+                if not isinstance(ix_, int) or not 0 <= ix_ < len(bv0):
+                    raise UndefinedBehaviour('index %s into a local array of %d elements' % (ix_, len(bv0)))
+                return bv0[ix_]
             if isinstance(bv0, (bytes, bytearray)):
                 ix_ = self.ev(e.get('idx'), env, members)
                 if not isinstance(ix_, int) or not 0 <= ix_ <= len(bv0):
@@ -668,6 +764,8 @@ class Interp:
                 w0_, _sg = width((e or {}).get('t'))
                 if w0_ in (8, 16, 32):
                     wl_ = 32
+                elif w0_ == 128:
+                    wl_ = 128
             except Exception:
                 wl_ = 64
             if not isinstance(r, int) or not 0 <= r < wl_:
@@ -691,6 +789,9 @@ class Interp:
                 bv = self.ev(l['base'], env, members)
             except Unsupported:
                 bv = None
+            if isinstance(bv, UnionVal):
+                bv.write(l.get('t'), v)
+                return
             if isinstance(bv, dict):
                 bv[l['name']] = v
                 return
@@ -700,6 +801,14 @@ class Interp:
             path = member_path(l)
             if path is not None:
                 members[path] = v
+                return
+        if l.get('k') == 'un' and l.get('op') == '*':
+            try:
+                a_c = self.ev(l['e'], env, members)
+            except Unsupported:
+                a_c = None
+            if isinstance(a_c, (LocalCell, MemberCell)):
+                a_c.set(v, l.get('t'))
                 return
         if (l.get('k') == 'un' and l.get('op') == '*') or l.get('k') == 'sub':
             if self.memory is not None and isinstance(v, int):
@@ -711,8 +820,8 @@ class Interp:
                 else:
                     addr = self.ev(l['e'], env, members)
                     ew, _ = width(l.get('t'))
-                    if isinstance(addr, LocalCell):
-                        addr.set(v)
+                    if isinstance(addr, (LocalCell, MemberCell)):
+                        addr.set(v, l.get('t'))
                         return
                 if isinstance(addr, int):
                     self.write(addr, max(1, ew // 8), v & ((1 << ew) - 1))
@@ -766,6 +875,9 @@ class Interp:
                                 self.writable.append((a_, a_ + int(ma.group(2))))
                             env[vd['id']] = a_
                             continue
+                        if (vd.get('t') or '').startswith('union ') or '(unnamed union' in (vd.get('t') or '') or '(anonymous union' in (vd.get('t') or ''):
+                            env[vd['id']] = UnionVal()
+                            continue
                         if vd.get('init') is not None:
                             try:
                                 env[vd['id']] = wrap(self.ev(vd['init'], env, members), vd.get('t'))
@@ -805,6 +917,8 @@ class Interp:
                     continue
                 if k in ('ref', 'lit', 'member', 'cast', 'paren', 'sub', 'str'):
                     continue
+                if k in ('ctor', 'lit', 'flit', 'ref', 'member', 'cast', 'sub', 'str', 'initlist', 'this', 'sizeof', 'nullptr'):
+                    continue          # a value computed for its enclosing full expression (listed separately by the CFG): no effect of its own
                 raise Unsupported('statement kind %s' % k)
             t = B.get('term')
             succs = B['succs']
